@@ -110,11 +110,34 @@ def model_profile() -> str:
     return CFG.name if CFG.name in ("kitty", "konsole", "wezterm", "iterm2") else "other"
 
 
-def apply(**kw):
+_DETECT = False
+
+
+def apply(detect=False, **kw):
     """Sets CFG fields and makes the graphics classes' detected-terminal state consistent
-    with the identity, as `is_supported()` would have left it."""
+    with the identity, as `is_supported()` would have left it.
+
+    detect=True leaves the classes *undetected* instead (`_supported is None`, no terminal recorded): the
+    library's own `is_supported()` then runs on first use (construction), with the kitty graphics query
+    answered as the identity would (OK on kitty and konsole, silence elsewhere)."""
+    global _DETECT
     CFG.set(**kw)
     import term_image.image as I
+    import term_image.image.kitty as KM
+
+    if _DETECT and not detect:
+        return  # detection was left to the library for this case: only the stubbed facts change
+    if detect:
+        _DETECT = True
+        name = CFG.name
+        KM._query_support = lambda: (b"\x1b_Gi=31;OK\x1b\\\x1b[" if name in ("kitty", "konsole") else b"")
+        for cls in (I.KittyImage, I.ITerm2Image):
+            cls._supported = None
+            cls._TERM = cls._TERM_VERSION = ""
+        I.KittyImage._KITTY_VERSION = ()
+        type.__setattr__(I.KittyImage, "_forced_support", True)
+        type.__setattr__(I.ITerm2Image, "_forced_support", True)
+        return
 
     K, T = I.KittyImage, I.ITerm2Image
     name, version = CFG.name, CFG.version
@@ -152,6 +175,8 @@ def reset():
         type.__setattr__(cls, "_render_method", "lines")
     type.__setattr__(type(I.ITerm2Image), "_native_anim_max_bytes", 2 * 2**20)
     CFG.set(cols=80, rows=30, cell=(9, 18), name="", version="", fg=None, bg=None)
+    global _DETECT
+    _DETECT = False
     apply()
 
 
